@@ -1,4 +1,4 @@
-import Netpoll.Buf.Run
+import Netpoll.Buf.World
 /-!
 # C01 – buffer reads return exactly the flushed bytes, in order, once
 
@@ -161,5 +161,23 @@ example : ∃ (b d : LB Nat) (q qd : Q Nat), R b q ∧ R d qd ∧ appendContract
   obtain ⟨d, hd⟩ := exists_R_of_run (α := Nat) {} 5 [.writeByte 2, .flush, .writeByte 3]
     { items := [(2, true), (3, false)] } (by decide)
   exact ⟨b, d, _, _, hb, hd, by decide, rfl, rfl⟩
+
+/-- **C01_fifo_world.**  Any number of buffers: start with none and apply any list of world
+operations – `NewLinkBuffer(size)`, a single-buffer operation on buffer `i`, `Slice(n)` on buffer `i`
+(the reader it returns becomes a new buffer), `Append` of buffer `j` to buffer `i`.  For as long
+as every call is inside its contract, no call panics, every result is the one the FIFO spec
+prescribes, and every buffer touched shows its queue's content, `Len()` and `MallocLen()`
+(`ConformsW`, `Netpoll.Buf.World`).  This covers Slice readers and appended buffers used further. -/
+theorem C01_fifo_world [DecidableEq α] (cfg : Cfg) (ops : List (WOp α)) :
+    ConformsW cfg ([] : List (LB α)) [] ops :=
+  conformsW_of_RW cfg ops ⟨rfl, fun i b q hb _ => by simp at hb⟩
+
+/-- a world run inside the contracts: two buffers, Append, Flush, Slice, reads on the Slice reader -/
+example :
+    (runCheckedW ({ linkBufferCap := 8 } : Cfg) ([] : List (LB Nat)) []
+      [.new 0, .new 4, .on 1 (.malloc 3 [1, 2, 3]), .on 1 .flush, .on 1 (.writeByte 4), .on 0 (.writeByte 9),
+       .append 0 1, .on 0 .flush, .slice 0 3 , .on 2 (.next 2), .on 0 (.readBinary 1), .on 2 .release]).map (·.2) =
+    some [{ items := [(4, true)] }, { dead := true }, { items := [(2, true)], readOnly := true }] := by
+  decide
 
 end Netpoll.Props.C01
